@@ -264,6 +264,9 @@ func (x *Exec) runInstrs(st *State, fr *Frame, b *ssa.BasicBlock, prev *ssa.Basi
 			case "false":
 				x.runBlock(st, fr, b.Succs[1], b, k)
 			default:
+				if x.tryMergeIf(st, fr, b, in, c, k) {
+					return
+				}
 				x.paths++
 				if x.paths > x.maxPaths {
 					x.reject("path limit %d exceeded", x.maxPaths)
@@ -324,9 +327,7 @@ func (x *Exec) runInstrs(st *State, fr *Frame, b *ssa.BasicBlock, prev *ssa.Basi
 				argv = append(argv, x.val(st, fr, a))
 			}
 			var fv Val
-			if !call.IsInvoke() && call.StaticCallee() == nil {
-				fv = x.val(st, fr, call.Value)
-			} else if call.IsInvoke() {
+			if _, isClo := call.Value.(*ssa.MakeClosure); call.IsInvoke() || call.StaticCallee() == nil || isClo {
 				fv = x.val(st, fr, call.Value)
 			}
 			pos := in.Pos()
@@ -1032,3 +1033,67 @@ func (x *Exec) lockCheckMap(st *State, m ssa.Value, fr *Frame, write bool, pos t
 
 var _ = constant.MakeBool
 var _ = sort.Strings
+
+func onlyJump(b *ssa.BasicBlock) bool {
+	if len(b.Instrs) != 1 {
+		return false
+	}
+	_, ok := b.Instrs[0].(*ssa.Jump)
+	return ok
+}
+
+// tryMergeIf avoids forking on `if c { x = v }` style triangles/diamonds whose branch blocks are empty:
+// the phis of the join block become ite terms. Returns false if the pattern does not apply.
+func (x *Exec) tryMergeIf(st *State, fr *Frame, b *ssa.BasicBlock, in *ssa.If, c Val, k contK) bool {
+	t, f := b.Succs[0], b.Succs[1]
+	var join, predT, predF *ssa.BasicBlock
+	switch {
+	case onlyJump(t) && len(t.Preds) == 1 && t.Succs[0] == f:
+		join, predT, predF = f, t, b
+	case onlyJump(f) && len(f.Preds) == 1 && f.Succs[0] == t:
+		join, predT, predF = t, b, f
+	case onlyJump(t) && onlyJump(f) && len(t.Preds) == 1 && len(f.Preds) == 1 && t.Succs[0] == f.Succs[0]:
+		join, predT, predF = t.Succs[0], t, f
+	default:
+		return false
+	}
+	if isLoopHeader(join) || join == b {
+		return false
+	}
+	idx := func(p *ssa.BasicBlock) int {
+		for i, q := range join.Preds {
+			if q == p {
+				return i
+			}
+		}
+		return -1
+	}
+	it, iF := idx(predT), idx(predF)
+	if it < 0 || iF < 0 {
+		return false
+	}
+	// all phis must have scalar terms on both edges
+	type pv struct {
+		phi *ssa.Phi
+		v   Val
+	}
+	var pvs []pv
+	n := 0
+	for _, ins := range join.Instrs {
+		phi, ok := ins.(*ssa.Phi)
+		if !ok {
+			break
+		}
+		n++
+		a, bv := x.val(st, fr, phi.Edges[it]), x.val(st, fr, phi.Edges[iF])
+		if a.S == "" || bv.S == "" || a.Sort != bv.Sort {
+			return false
+		}
+		pvs = append(pvs, pv{phi, Val{T: phi.Type(), S: sIte(c.S, a.S, bv.S), Sort: a.Sort}})
+	}
+	for _, p := range pvs {
+		fr.vals[p.phi] = p.v
+	}
+	x.runInstrs(st, fr, join, predT, n, k)
+	return true
+}
